@@ -40,6 +40,12 @@ def populate(t, rng, nbulk):
     t.add_file("t/two/name-\udcfe\udcff.gz", fc.gz(1700000010))                    # a file whose own name is not UTF-8 (the walk reports an error)
     # a job whose path is longer than a kilobyte (the job messages carry the whole path)
     t.add_file("t/two/long/" + "/".join("d%d-" % i + "x" * 180 for i in range(6)) + "/deep.gz", fc.gz(1700000011))
+    # files of one directory that share their stem and differ only in the extension, each taking a worker a noticeable time
+    # (thousands of members): whatever is derived from a file's name for the duration of a job must be derived from all of it
+    big = big_zip()
+    t.add_file("t/two/same/app.jar", big)
+    t.add_file("t/two/same/app.zip", big)
+    t.add_file("t/two/same/app.a", fc.ar([("m%d.o/" % i, 1700000000 + i, 1, 1, 100644, b"x" * 64) for i in range(3000)]))
     t.symlink("one/g.gz", "t/link-to-file.gz")
     t.symlink("one", "t/link-to-dir")
     for i in range(nbulk):
@@ -54,6 +60,23 @@ def populate(t, rng, nbulk):
         else:
             t.add_file(name + ".txt", b"not handled %d" % i)
     os.utime(t.path("t"), ns=(1_650_000_000_000_000_000, 1_650_000_000_000_000_000))
+
+
+_BIG = {}
+
+
+def big_zip():
+    if "z" not in _BIG:
+        import io
+        import zipfile
+        bio = io.BytesIO()
+        with zipfile.ZipFile(bio, "w", zipfile.ZIP_STORED) as z:
+            for i in range(8000):
+                zi = zipfile.ZipInfo("pkg/m%05d.txt" % i, date_time=(2030, 1, 1 + i % 28, 12, 0, 2 * (i % 30)))
+                zi.external_attr = 0o100644 << 16
+                z.writestr(zi, b"member %d\n" % i)
+        _BIG["z"] = bio.getvalue()
+    return _BIG["z"]
 
 
 def canon(snap):
